@@ -12,9 +12,9 @@ for log in ("/verif/run/confirm_all.log", "/verif/run/confirm_final.log", "/veri
                 conf.setdefault(m.group(1), []).append(l.strip())
 props = {json.loads(l)["id"]: json.loads(l) for l in open("/verif/properties.jsonl")}
 for p in sorted(props):
-    for x in "AB":
+    for x in "ABCD":
         key = "%s-%s" % (p, x)
-        src = "/tmp/seedout/%s/%s" % (p, x)
+        src = "/tmp/seedout/%s/%s" % (p, x) if x in "AB" else "/tmp/seedout2/%s/%s" % (p, "A" if x == "C" else "B")
         if not os.path.exists(src + "/patch.diff"):
             continue
         reb = "/verif/run/mut/%s.diff" % key
@@ -35,7 +35,7 @@ for p in sorted(props):
         meta = json.load(open(meta_path)) if os.path.exists(meta_path) else {}
         meta.update(dict(
             property=p, title=props[p]["title"], variant=x,
-            origin="independent sub-agent given only the property text and a scratch worktree",
+            origin="independent sub-agent given only the property text and a scratch worktree" + ("" if x in "AB" else " (second round: told the mechanisms of the first two changes and asked for different ones)"),
             rebased=os.path.exists(reb),
             needs=(re.search(r"(?is)(needs?|manifest|trigger)[^\n]*\n(.{0,600})", notes).group(0)[:700] if re.search(r"(?is)(needs?|manifest|trigger)", notes) else notes[:500]),
             confirmed=dict(against_repo_head=head, how="tools/confirm_seed.sh: in a scratch worktree of /repo HEAD: go test ./... passes with the patch; "
